@@ -182,8 +182,35 @@ def broken_variant_case(gname, g, roots, seed):
     return fn
 
 
+def big_graph_case(shape):
+    def fn(pr):
+        ts = {}
+        if shape == "deep":
+            prev = None
+            for i in range(200):
+                ts["c%d" % i] = {"build": "true"} if prev is None else {"build": "true", "dependencies": [prev]}
+                prev = "c%d" % i
+            root, what = prev, "a chain of 200 builds"
+        else:
+            for i in range(300):
+                ts["w%d" % i] = {"build": "true"}
+            ts["fan"] = {"dependencies": sorted(ts)}
+            ts["top"] = {"build": "true", "dependencies": ["fan"]}
+            root, what = "top", "a build over an aggregate of 300 builds"
+        pr.write("zinoma.yml", yml(ts), record=False)
+        pr.files["zinoma.yml"] = what
+        for rep in range(2):
+            r = pr.run(root, timeout=90)
+            if r.timed_out or r.rc != 0:
+                return {"property": "C04", "expected": "%s terminates with exit status 0 (graphs of any depth and width)" % what, "observed": "exit %s, timed out: %s (run %d)" % (r.rc, r.timed_out, rep), "zinoma": r.brief()}
+        return None
+    return fn
+
+
 def cases(seed, tier="quick"):
     out = [Case("graph", "killed-script-" + s, killed_script_case(s), "script killed by SIG%s counts as failed" % s) for s in ("KILL", "TERM", "SEGV")]
+    out.append(Case("graph", "deep-chain-200", big_graph_case("deep"), "depth"))
+    out.append(Case("graph", "wide-fanout-300", big_graph_case("wide"), "width"))
     for (gname, g, roots) in _graphs(seed, 24 if tier == "thorough" else 6):
         if gname.startswith("random"):
             out.append(Case("graph", "back-edge:" + gname, broken_variant_case(gname, g, roots, seed + len(g)), "a back edge added to %s" % gname))
